@@ -57,6 +57,8 @@ type c12Case struct {
 	// Empty: nothing at all is registered with the server / channel (e.g. the listener was started first): every
 	// name is unknown
 	Empty bool `json:",omitempty"`
+	// NameBytes: the called name when it is not valid UTF-8 (kept as bytes so that the replay file is exact)
+	NameBytes []byte `json:",omitempty"`
 }
 
 type c12Creds struct{}
@@ -108,6 +110,9 @@ func c12Desc(s c12Svc, ctr *c12Counters, streamFlags int) *grpc.ServiceDesc {
 }
 
 func propC12(c c12Case) *Outcome {
+	if len(c.NameBytes) > 0 {
+		c.Name = string(c.NameBytes)
+	}
 	o := &Outcome{}
 	o.class("carrier=%s", c.Carrier)
 	if c.Origin != "" {
@@ -217,7 +222,8 @@ func propC12(c c12Case) *Outcome {
 	clientDesc := func() *grpc.StreamDesc {
 		d := &grpc.StreamDesc{ClientStreams: true, ServerStreams: true}
 		if c.DescHandler {
-			d.StreamName = "Decoy"
+			// (named like the method being called, as the descriptor a generated stub passes is)
+			d.StreamName = c.Name[strings.LastIndexByte(c.Name, '/')+1:]
 			d.Handler = func(srv interface{}, stream grpc.ServerStream) error {
 				ctr.hit("!decoy-handler-from-the-callers-descriptor")
 				return nil
@@ -451,6 +457,13 @@ func genC12(t *rapid.T) c12Case {
 		c.Name, c.Origin = "/"+rapid.StringMatching(`[a-zA-Z.]{1,8}`).Draw(t, "rs")+"/"+rapid.StringMatching(`[a-zA-Z]{1,6}`).Draw(t, "rm"), "random-well-formed"
 	case 19:
 		c.Name, c.Origin = rapid.StringMatching(`[/a-zA-Z.]{0,12}`).Draw(t, "rnd"), "random"
+	case 20:
+		// a registered name with bytes in it that are not valid UTF-8 (a stray 0xff, a truncated or overlong sequence):
+		// not a registered name
+		junk := rapid.SampledFrom([]string{"\xff", "\xfe", "\xc3", "\xc0\xaf", "\xf5", "\xe2\x82"}).Draw(t, "junk")
+		at := rapid.SampledFrom([]int{0, 1, 1 + len(svcPart), 2 + len(svcPart), len(reg)}).Draw(t, "junkat")
+		c.NameBytes = []byte(reg[:at] + junk + reg[at:])
+		c.Name, c.Origin = string(c.NameBytes), "invalid-utf8-inside-a-registered-name"
 	default:
 		c.Name = rapid.SampledFrom(all).Draw(t, "other-registered")
 		c.ViaStream = !isUnary[c.Name]
